@@ -47,4 +47,24 @@ structure Inv (c : Cfg) (s : State) : Prop where
 theorem inv_init (c : Cfg) : Inv c init := by
   constructor <;> simp [init, Seg, HoldsTl, HoldsHd, Owns, Held, abs] <;> intro p <;> (first | omega | (split <;> simp_all))
 
+theorem Inv.tl_live {c s} (h : Inv c s) (u : Nat) (hp : HoldsTl (s.pc u)) :
+    s.life (s.tl u) = .inq ∨ s.life (s.tl u) = .removed := by
+  cases e : s.cs u with
+  | none => have := h.op_cs u e; simp [HoldsTl, this] at hp
+  | some b => rcases h.tl_held u hp b e with r | r; exact .inl r; exact .inr r.1
+
+theorem Inv.hd_live {c s} (h : Inv c s) (u : Nat) (hp : HoldsHd s u) :
+    s.life (s.hd u) = .inq ∨ s.life (s.hd u) = .removed := by
+  cases e : s.cs u with
+  | none => have := h.op_cs u e; simp [HoldsHd, this] at hp
+  | some b => rcases h.hd_held u hp b e with r | r; exact .inl r; exact .inr r.1
+
+theorem Inv.head_in {c s} (h : Inv c s) : s.head ∈ s.chain := seg_head_mem h.seg h.tail_in
+
+theorem Inv.next_mem {c s} (h : Inv c s) (x : Nat) (hx : x ∈ s.chain) (hn : s.next x ≠ 0) :
+    s.next x ∈ s.chain ∧ s.next x ≠ s.head := seg_next_mem h.seg h.nodup hx hn
+
+theorem Inv.last_unique {c s} (h : Inv c s) (x y : Nat) (hx : x ∈ s.chain) (hy : y ∈ s.chain)
+    (nx0 : s.next x = 0) (ny0 : s.next y = 0) : x = y := seg_last_unique h.seg h.nodup hx hy nx0 ny0
+
 end UrcuVerif.Lfq
